@@ -7,6 +7,7 @@ import (
 	"fmt"
 	"sort"
 	"strings"
+	"sync/atomic"
 
 	"github.com/samsarahq/thunder/federation"
 	"github.com/samsarahq/thunder/graphql"
@@ -333,6 +334,93 @@ func fdSortQ(v interface{}) {
 	})
 }
 
+// fdKeySelections checks every `_federation { ... }` selection of the plan against the model's key selection
+// (theorem key_selection_covers): the fields, in name order, that a service of the hop declares as key of the object.
+func fdKeySelections(m *Model, p *federation.Plan, part fdPartition, svcID map[string]int) (string, map[string]interface{}) {
+	fieldNames := map[string][]string{"A": {"a0", "a1", "a2", "aPlus", "b", "bs", "id", "org"}, "B": {"a", "as", "b0", "b1", "id"}}
+	var walk func(ss *graphql.SelectionSet, typ string, path []string) (string, map[string]interface{})
+	walk = func(ss *graphql.SelectionSet, typ string, path []string) (string, map[string]interface{}) {
+		if ss == nil {
+			return "", nil
+		}
+		for _, sel := range ss.Selections {
+			if sel.Name == "_federation" && p.Service != "gateway-coordinator-service" && len(fieldNames[typ]) > 0 && (len(path) > 0 || typ != "Query") {
+				var targets []interface{}
+				for _, a := range p.After {
+					var ap []string
+					for _, st := range a.Path {
+						ap = append(ap, st.Name)
+					}
+					if fmt.Sprint(ap) == fmt.Sprint(path) {
+						targets = append(targets, svcID[a.Service])
+					}
+				}
+				names := fieldNames[typ]
+				var fields, keys []interface{}
+				for i := range names {
+					fields = append(fields, i)
+				}
+				for k := 0; k < part.Services; k++ {
+					svc := fmt.Sprintf("s%d", k+1)
+					if !fdHasType(part, svc, typ) {
+						continue
+					}
+					for i, n := range names {
+						if n == "id" || (n == "org" && !part.idOnly(svc)) {
+							keys = append(keys, map[string]interface{}{"s": k + 1, "f": i})
+						}
+					}
+				}
+				resp, err := m.Call(map[string]interface{}{"op": "keysel", "fields": fields, "keys": nzList(keys), "targets": nzList(targets)})
+				if err != nil {
+					return "harness_error", map[string]interface{}{"error": err.Error()}
+				}
+				var want, got []string
+				for _, x := range resp["sel"].([]interface{}) {
+					want = append(want, names[int(toInt64(x))])
+				}
+				if sel.SelectionSet != nil {
+					for _, k := range sel.SelectionSet.Selections {
+						got = append(got, k.Name)
+					}
+				}
+				atomic.AddInt64(&fdKeySelN, 1)
+				if len(want) > 1 {
+					atomic.AddInt64(&fdKeySelTwo, 1)
+				}
+				if fmt.Sprint(got) != fmt.Sprint(want) {
+					return "impl_ne_model", map[string]interface{}{"what": "the key fields selected for a hop differ from the model's (the key fields of all services hopped to)", "type": typ, "path": path, "service": p.Service, "targets": targets, "impl": got, "model": want}
+				}
+				continue
+			}
+			if ct := fdChild(typ, sel.Name); ct != "" {
+				if k, d := walk(sel.SelectionSet, ct, append(append([]string{}, path...), sel.Alias)); k != "" {
+					return k, d
+				}
+			}
+		}
+		return "", nil
+	}
+	if k, d := walk(p.SelectionSet, p.Type, nil); k != "" {
+		return k, d
+	}
+	for _, a := range p.After {
+		if k, d := fdKeySelections(m, a, part, svcID); k != "" {
+			return k, d
+		}
+	}
+	return "", nil
+}
+
+var fdKeySelN, fdKeySelTwo int64
+
+func nzList(l []interface{}) []interface{} {
+	if l == nil {
+		return []interface{}{}
+	}
+	return l
+}
+
 // c06Model compares the real normalizer + planner + executor with the Lean model on one union-free query.
 func c06Model(c *Ctx, m *Model, w *fdWorld, cs c06Case, query string, gotGateway, wantMono interface{}) {
 	rep := c.Rep
@@ -365,6 +453,18 @@ func c06Model(c *Ctx, m *Model, w *fdWorld, cs c06Case, query string, gotGateway
 			return
 		}
 		realAfter = append(realAfter, e)
+	}
+	n0, t0 := atomic.LoadInt64(&fdKeySelN), atomic.LoadInt64(&fdKeySelTwo)
+	if kind, d := fdKeySelections(m, plan, cs.Partition, svcID); kind != "" {
+		d["query"] = query
+		rep.Fail(kind, nil, one, d)
+		return
+	}
+	if atomic.LoadInt64(&fdKeySelN) > n0 {
+		rep.Count("key_selections_compared_with_model")
+	}
+	if atomic.LoadInt64(&fdKeySelTwo) > t0 {
+		rep.Count("key_selections_with_two_fields")
 	}
 	picks := map[[3]int]int{}
 	conflict := false
